@@ -944,7 +944,12 @@ def b_print(it, *a, **k):
 
 
 def b_id(it, v):
-    raise OutsideSubset("id()")
+    """id(): containers and stubs keep their python identity inside the interpreter (a dict of the program IS a python
+    dict object), so their id is the real one; symbolic scalars have no identity"""
+    from .sstr import SStr
+    if isinstance(v, (Sym, SStr, ModelValue)):
+        raise OutsideSubset("id() of a symbolic value")
+    return id(v)
 
 
 def b_iter(it, f, *sentinel):
